@@ -360,7 +360,7 @@ fn price_ok(p: &str, precision: u128) -> Result<Dec, String> {
     }
 }
 
-pub fn consistent_book(book: &Book) -> Vec<String> {
+pub fn consistent_book(book: &Book, tainted_bids: &std::collections::BTreeSet<String>) -> Vec<String> {
     let mut bad = vec![];
     let cfg = match &book.cfg {
         Some(c) => c,
@@ -402,8 +402,11 @@ pub fn consistent_book(book: &Book) -> Vec<String> {
                 match price_ok(&b.price, cfg.precision) {
                     Err(e) => bad.push(format!("bid {}: {}", key, e)),
                     Ok(p) => {
-                        if !p.is_zero() {
-                            let want = p.mul_u128(rb);
+                        // judged exactly inside the decidable zone only: a product beyond 96 bits
+                        // is rounded by the contract's decimals (DESIGN 3.2), and so is everything
+                        // that later happens to an order once it went through such a product
+                        let want = p.mul_u128(rb);
+                        if !p.is_zero() && want.representable() && !tainted_bids.contains(key) {
                             if want.as_u128() != Some(rq) {
                                 bad.push(format!(
                                     "bid {}: unspent quote {} is not price {} x unfilled size {}",
@@ -554,7 +557,11 @@ pub fn c11(j: &mut Judge, v: &StepView) {
             }
         }
     }
-    for b in consistent_book(v.after) {
+    let tainted: std::collections::BTreeSet<String> = j.tracker.bids.iter().filter(|(_, t)| t.tainted).map(|(k, _)| k.clone()).collect();
+    if !tainted.is_empty() {
+        j.label("orders-outside-decidable-zone");
+    }
+    for b in consistent_book(v.after, &tainted) {
         j.violate(Prop::C11, "inconsistent-order", v.req.kind(), b);
     }
     // non-trivial: accepted while >= 2 other orders were open on the same side
